@@ -72,7 +72,7 @@ func cmdJob(args []string) int {
 		return 2
 	}
 	fmt.Fprintf(os.Stderr, "loaded in %v\n", time.Since(t0))
-	cfg := sym.JobConfig{Harness: *fn, Pkg: runner.PkgPath(*hname), Params: params, MaxPaths: *maxPaths, Unwind: *unwind, Timeout: *timeout}
+	cfg := sym.JobConfig{Harness: *fn, Pkg: runner.PkgPath(*hname), Params: params, MaxPaths: *maxPaths, Unwind: *unwind, Timeout: *timeout, Overrides: map[string]string{"net.Listen": "vnetListen"}}
 	m, err := sym.NewMachine(ld, cfg, *solver)
 	if err != nil {
 		fmt.Fprintln(os.Stderr, err)
